@@ -15,7 +15,7 @@ for f in k["findings"]:
     f["line"] = f"fixed: property={f['property']} {f['commit']} {f['what']}"
 json.dump(k, open(os.path.join(ROOT, "known_findings.json"), "w"), indent=1)
 for f in k["findings"]:
-    if f["status"] != "fixed" or f.get("revert_with"):
+    if f["status"] != "fixed" or f.get("revert_with") or f.get("manual_revert"):
         continue
     ids = [f["commit"]] + [g["commit"] for g in k["findings"] if g.get("revert_with") == f["id"]]
     wt = "/tmp/pbv-revert-wt"
